@@ -282,6 +282,81 @@ func expandNums(n, style int, seed uint64, extra []int64) []int64 {
 	return keys
 }
 
+// expandNumsSigned draws n distinct integer keys from a sign regime (see
+// Case.Sign).  style%3 places the magnitudes: 0 dense next to zero, 1 at the
+// extremes of int64 (MinInt64 upwards / MaxInt64 downwards), 2 anywhere.
+func expandNumsSigned(n, sign, style int, seed uint64, extra []int64) []int64 {
+	rnd := vt.NewRand(seed)
+	place := ((style % 3) + 3) % 3
+	span := int64(4*n + 8)
+	neg := func() int64 {
+		switch place {
+		case 0:
+			return -1 - int64(rnd.Uint64()%uint64(span))
+		case 1:
+			return math.MinInt64 + int64(rnd.Uint64()%uint64(span))
+		}
+		return -1 - int64(rnd.Uint64()>>1)
+	}
+	nonneg := func() int64 {
+		switch place {
+		case 0:
+			return int64(rnd.Uint64() % uint64(span))
+		case 1:
+			return math.MaxInt64 - int64(rnd.Uint64()%uint64(span))
+		}
+		return int64(rnd.Uint64() >> 1)
+	}
+	wantNeg, wantPos := 0, 0
+	switch sign {
+	case 1:
+		wantNeg = n
+	case 2:
+		wantPos = n
+	case 4:
+		// at least 4096 negative keys, then at least one more key
+		if n < 4098 {
+			n = 4098
+		}
+		wantPos = rnd.Intn(100)
+		wantNeg = n - wantPos
+		if rnd.Intn(2) == 0 {
+			wantNeg, wantPos = n, 0 // the keys which follow are negative too
+		}
+	default:
+		wantNeg = n/4 + rnd.Intn(n/2+1)
+		wantPos = n - wantNeg
+	}
+	set := make(map[int64]bool, n)
+	var keys []int64
+	nNeg, nPos := 0, 0
+	add := func(k int64) {
+		if set[k] {
+			return
+		}
+		if k < 0 && nNeg < wantNeg {
+			nNeg++
+		} else if k >= 0 && nPos < wantPos {
+			nPos++
+		} else {
+			return
+		}
+		set[k] = true
+		keys = append(keys, k)
+	}
+	for _, k := range extra {
+		add(k)
+	}
+	for nNeg < wantNeg {
+		add(neg())
+	}
+	for nPos < wantPos {
+		add(nonneg())
+	}
+	sort.Slice(keys, func(i, j int) bool { return keys[i] < keys[j] })
+	return keys
+}
+
 func numGap(ks []pdf.Integer, i, j int) []pdf.Integer {
 	at := func(x int) int64 { return int64(ks[x]) }
 	var out []pdf.Integer
@@ -324,6 +399,25 @@ func numGap(ks []pdf.Integer, i, j int) []pdf.Integer {
 
 func noteNumClasses(c *Case, keys []int64) {
 	f := c.obs.flags
+	negatives := 0
+	for _, k := range keys {
+		if k < 0 {
+			negatives++
+		}
+	}
+	n := len(keys)
+	switch {
+	case n > 0 && negatives == n:
+		f["all-negative"] = true
+	case n > 0 && negatives == 0:
+		f["all-nonnegative"] = true
+	case n > 0:
+		f["mixed-sign"] = true
+	}
+	if negatives >= maxFan*maxFan && n > maxFan*maxFan {
+		// the first intermediate node holds negative keys only, more follow
+		f["negative-block>=4096-then-more"] = true
+	}
 	for i, k := range keys {
 		switch {
 		case k == math.MinInt64:
